@@ -1,5 +1,7 @@
 import Rtsp.Generated.Facts.Life
 import Rtsp.Proofs.Life.MonitorProps
+import Rtsp.Proofs.Life.Fair
+import Rtsp.Proofs.Life.Client
 /-
 # C13 — Close is complete; life-cycle callbacks are balanced and ordered
 
@@ -96,5 +98,129 @@ example : accepts [.connOpen 0, .request 0, .connClose 0, .request 0] = false :=
 monitor -/
 theorem accepts_prefix_closed (a b : List Event) (h : accepts (a ++ b) = true) : accepts a = true :=
   accepts_prefix h
+
+/-! ## The model: invariants, refinement of the monitor, termination of Close
+
+`run init as = some (st, tr)`: the action sequence `as` is executable from the state after `Server.Start()`
+and leads to `st` with visible trace `tr` — i.e. `st` is reachable and `tr` is a trace of the model. -/
+
+/-- **Reachable states satisfy the structural invariant and the WaitGroup invariant**, in particular:
+the reader goroutine of a connection lives only between `OnConnOpen` and `reader.wait()`; a reader that
+delivers interleaved frames belongs to a connection in `ss.conns` of a session that has not delivered
+`OnSessionClose`; `s.wg` equals the number of goroutines that have not finished (`live`). -/
+theorem invariants_reachable (as : List Action) (st : State) (tr : List Event)
+    (h : run Life.init as = some (st, tr)) : Inv st ∧ WgInv st :=
+  run_inv inv_init wgInv_init h
+
+/-- **`wg.Wait()` returns exactly when every goroutine has finished**: in every reachable state
+`wg = 0 ↔` server loop and listener returned and every connection and session delivered its close
+notification. -/
+theorem wg_zero_iff_all_done (as : List Action) (st : State) (tr : List Event)
+    (h : run Life.init as = some (st, tr)) : st.wg = 0 ↔ st.allDone := by
+  have := (invariants_reachable as st tr h).2.wgCount
+  rw [this]; exact live_zero_iff
+
+/-- **Every trace the model can produce is accepted by the monitor.** -/
+theorem model_traces_accepted (as : List Action) (st : State) (tr : List Event)
+    (h : run Life.init as = some (st, tr)) : accepts tr = true := by
+  obtain ⟨m, hm, _⟩ := run_sim inv_init wgInv_init sim_init h
+  simp [accepts, hm]
+
+/-- non-vacuity: a run of the model with a TCP session, a packet racing with the shutdown, and Close -/
+example : (run Life.init [.accept, .connOpenCb 0, .request 0, .createSess 0, .sessOpenCb 0, .sreq 0 0 .plain,
+    .sreq 0 0 .playTcp, .pktTcp 0, .closeCall, .sessExit 0, .pktTcp 0, .sessCancelConn 0 0, .srvExit, .connExit 0,
+    .readerExit 0, .connJoin 0, .connCloseCb 0, .sessCloseCb 0, .lnExit, .closeReturn]).map (·.2) =
+    some [.connOpen 0, .request 0, .sessionOpen 0 0, .sreq 0 0, .sreq 0 0, .packet 0, .closeCalled, .packet 0,
+      .connClose 0, .sessionClose 0, .closeReturned] := by decide
+/-- the session cannot announce its close while the reader of its connection is alive … -/
+example : (run Life.init [.accept, .connOpenCb 0, .createSess 0, .sessOpenCb 0, .sreq 0 0 .playTcp, .closeCall,
+    .sessExit 0, .sessCloseCb 0]).isNone = true := by decide
+/-- … and Close cannot return while a connection has not delivered OnConnClose -/
+example : (run Life.init [.accept, .connOpenCb 0, .closeCall, .srvExit, .lnExit, .closeReturn]).isNone = true := by
+  decide
+
+/-- consequence for the model (monitor theorems composed with `model_traces_accepted`): in every trace of
+the model no packet or request callback of a session follows its close notification, and `closeReturned`
+comes after all close notifications and is the last event. -/
+theorem model_ordered (as : List Action) (st : State) (a b : List Event) :
+    (∀ s, run Life.init as = some (st, a ++ .sessionClose s :: b) → Event.packet s ∉ b ∧ ∀ c, Event.sreq s c ∉ b) ∧
+    (run Life.init as = some (st, a ++ .closeReturned :: b) →
+      b = [] ∧ (∀ c, Event.connOpen c ∈ a → Event.connClose c ∈ a) ∧
+      (∀ s c, Event.sessionOpen s c ∈ a → Event.sessionClose s ∈ a)) := by
+  refine ⟨fun s h => nothing_after_sessionClose (model_traces_accepted _ _ _ h), fun h => ?_⟩
+  have := closeReturned_last (model_traces_accepted _ _ _ h)
+  exact ⟨this.1, this.2.2.2.1, this.2.2.2.2⟩
+
+/-- **close_terminates, part 1 — a finite cancel-driven path exists.**  From every reachable state in
+which `Close` has been called there is a sequence of own steps of the library's goroutines (no peer, no API
+user involved), at most `rank st` long, that ends with `Close` returned, `wg = 0` and everything finished. -/
+theorem close_terminates (as : List Action) (st : State) (tr : List Event)
+    (h : run Life.init as = some (st, tr)) (hc : st.closeCalled = true) :
+    ∃ bs st' tr', (∀ a, a ∈ bs → a.own = true) ∧ bs.length ≤ rank st ∧ run st bs = some (st', tr') ∧
+      st'.closeReturned = true ∧ st'.allDone := by
+  obtain ⟨hi, hw⟩ := invariants_reachable as st tr h
+  have hcan : st.cancelled = true := by rw [hi.cancelledIff]; exact hc
+  obtain ⟨bs, st', tr', h1, h2, h3, h4⟩ := close_path (rank st) hi hw hcan (Nat.le_refl _)
+  have ⟨_, hw'⟩ := run_inv hi hw h3
+  exact ⟨bs, st', tr', h1, h2, h3, h4, allDone_of_returned hw' h4⟩
+
+/-- **close_terminates, part 2 — every path of own steps is short and a maximal one ends all-closed.**
+(`rank` strictly decreases with every own step; while `Close` has not returned some own step is enabled:
+sessions wait for connections, connections for their readers, `Close` for everybody — no cycle.) -/
+theorem close_terminates_own_paths (as : List Action) (st : State) (tr : List Event)
+    (h : run Life.init as = some (st, tr)) (hc : st.closeCalled = true)
+    (bs : List Action) (st' : State) (tr' : List Event) (hown : ∀ a, a ∈ bs → a.own = true)
+    (hrun : run st bs = some (st', tr')) :
+    bs.length ≤ rank st ∧ ((∀ a, a.own = true → ¬ enabled st' a) → st'.closeReturned = true ∧ st'.allDone) := by
+  obtain ⟨hi, hw⟩ := invariants_reachable as st tr h
+  have hcan : st.cancelled = true := by rw [hi.cancelledIff]; exact hc
+  have hb := own_path_bounded hi hw hown hrun
+  refine ⟨by omega, fun hmax => ?_⟩
+  have ⟨hi', hw'⟩ := run_inv hi hw hrun
+  have hcan' := run_cancelled hcan hrun
+  cases hr : st'.closeReturned with
+  | true => exact ⟨rfl, allDone_of_returned hw' hr⟩
+  | false =>
+    obtain ⟨a, ha, hen⟩ := progress hi' hw' hcan' hr
+    exact absurd hen (hmax a ha)
+
+/-- **close_terminates, part 3 — along every fair execution, with the environment interleaving.**
+Fairness assumed: weak fairness of each own action of each goroutine (`Exec.Fair`: an own action that stays
+enabled is eventually taken); nothing is assumed about peers and API users.  The execution may start in any
+state that satisfies the invariants (every reachable state does, `invariants_reachable`) with `Close`
+called. -/
+theorem close_terminates_fair (x : Exec) (hi : Inv (x.σ 0)) (hw : WgInv (x.σ 0))
+    (hc : (x.σ 0).closeCalled = true) (hf : x.Fair) :
+    ∃ n, (x.σ n).closeReturned = true ∧ (x.σ n).allDone :=
+  Life.close_terminates_fair x hi hw (by rw [hi.cancelledIff]; exact hc) hf
+
+/-- the environment cannot disable a shutdown step (used for part 3; stated for its own sake) -/
+theorem shutdown_steps_persist (st st' : State) (a b : Action) (e : Option Event) (hi : Inv st)
+    (hc : st.cancelled = true) (hsrv : st.srvRunning = false) (h : step st b = some (st', e))
+    (hr : rank st' = rank st) (ha : a.own = true) (hen : enabled st a) : enabled st' a :=
+  (enabled_own_iff ha).mpr (persist hi hc hsrv h hr ha ((enabled_own_iff ha).mp hen))
+
+/-! ## The client -/
+
+/-- **Every trace of the client model is accepted by the client monitor**: no `OnRequest`/`OnResponse`/
+packet callback after `Client.Close` returned; `Close` returns once, after it was called. -/
+theorem client_traces_accepted (as : List KAction) (k : Client) (tr : List Event)
+    (h : krun {} as = some (k, tr)) : acceptsClient tr = true := by
+  have := (krun_sim kinv_init h).1
+  simp [acceptsClient, this]
+
+example : (krun {} [.connect, .apiRequest, .playTcp, .pktTcp, .closeCall, .pktTcp, .exit, .stopTransports,
+    .teardown, .readerClose, .finish, .closeReturn]).map (·.2) =
+    some [.request 0, .request 0, .packet 0, .closeCalled, .packet 0, .request 0, .closeReturned] := by decide
+example : acceptsClient [.closeCalled, .closeReturned, .packet 0] = false := by decide
+example : acceptsClient [.request 0, .closeReturned] = false := by decide
+
+/-- **`Client.Close` terminates**: from every reachable client state in which `Close` was called a path of
+own steps of `Client.run`/`doClose` (at most `krank` long) leads to `Close` returned. -/
+theorem client_close_terminates (as : List KAction) (k : Client) (tr : List Event)
+    (h : krun {} as = some (k, tr)) (hc : k.closeCalled = true) :
+    ∃ bs k' tr', (∀ a, a ∈ bs → a.own = true) ∧ bs.length ≤ krank k ∧ krun k bs = some (k', tr') ∧
+      k'.closeReturned = true :=
+  kclose_path (krank k) (krun_sim kinv_init h).2 hc (Nat.le_refl _)
 
 end Rtsp.Life.C13
